@@ -29,6 +29,8 @@ var c01Vals = []interface{}{
 	map[interface{}]interface{}{"a": 2.0}, "x1", "", "<nil>", []interface{}{[]interface{}{1.0}},
 	[]interface{}{}, map[interface{}]interface{}{}, false, "[1]",
 	math.NaN(), 0.0, math.Copysign(0, -1), // 20: not equal to itself; 21/22: equal as map keys, different text
+	map[interface{}]interface{}{"a": map[interface{}]interface{}{"b": 1.0}}, []interface{}{map[interface{}]interface{}{"a": 1.0}},
+	map[interface{}]interface{}{"a": []interface{}{1.0}}, map[interface{}]interface{}{"a": map[interface{}]interface{}{"b": 1.0}}, // nested; 26 = 23
 }
 
 const c01NaN, c01PosZero, c01NegZero = 20, 21, 22
@@ -432,7 +434,7 @@ func c01Run(payload string) string {
 			case 'R':
 				idx = engine.NewRuleIndex()
 			case 'r':
-				idx.AddRule(c.rules[n].build(nil))
+				idx.AddRule(c.rules[n].build(nil).CopyAs(c.rules[n].name))
 			case 'e':
 				ev := c.events[n].build()
 				t := "0"
@@ -482,6 +484,8 @@ func c01Run(payload string) string {
 		}
 		evs := make([]*engine.Event, len(c.events))
 		added := make([]bool, len(c.events))
+		var wgc sync.WaitGroup
+		var cerr error
 		for _, op := range ops {
 			n, _ := strconv.Atoi(op[1:])
 			switch op[0] {
@@ -512,6 +516,25 @@ func c01Run(payload string) string {
 				evs[n] = c.events[n].build()
 				var m engine.Monitor
 				var err error
+				if c.mode == "c" {
+					// AddEvent from one goroutine per event: the trigger cache is filled concurrently
+					wgc.Add(1)
+					var pm engine.Monitor
+					if !c.scopeNil {
+						pm = proc.NewRootMonitor(nil, newScope())
+					}
+					go func(n int, pm engine.Monitor) {
+						defer wgc.Done()
+						m, err := proc.AddEvent(evs[n], pm)
+						mu.Lock()
+						if err != nil {
+							cerr = err
+						}
+						added[n] = m != nil && !reflect.ValueOf(m).IsNil()
+						mu.Unlock()
+					}(n, pm)
+					continue
+				}
 				if c.mode == "w" {
 					var rm *engine.RootMonitor
 					if !c.scopeNil {
@@ -531,7 +554,30 @@ func c01Run(payload string) string {
 				added[n] = m != nil && !reflect.ValueOf(m).IsNil()
 			}
 		}
+		wgc.Wait()
+		if cerr != nil {
+			return procRes{fail: "ERR " + oneLine(cerr.Error())}
+		}
 		stop()
+		// the processor reports exactly the accepted rules (since the last Reset) and its worker count
+		want := map[string]bool{}
+		for _, op := range ops {
+			n, _ := strconv.Atoi(op[1:])
+			if op[0] == 'R' {
+				want = map[string]bool{}
+			} else if op[0] == 'r' && errs[n] == '0' {
+				want[c.rules[n].name] = true
+			}
+		}
+		got := proc.Rules()
+		if len(got) != len(want) || proc.Workers() != c.workers {
+			return procRes{fail: fmt.Sprintf("RULES-MISMATCH %d listed, %d accepted", len(got), len(want))}
+		}
+		for name := range want {
+			if _, ok := got[name]; !ok {
+				return procRes{fail: "RULES-MISMATCH " + hx(name) + " not listed"}
+			}
+		}
 
 		xs := make([]string, len(evs))
 		mu.Lock()
@@ -1052,6 +1098,10 @@ func c01Gen(g *Gen) {
 					c.failing = append(c.failing, j)
 				}
 			}
+		}
+		if what == "random-mixed" && i%5 == 3 {
+			c.mode = "c"
+			what = "random-concurrent-addevent"
 		}
 		emit(c, what)
 	}
